@@ -867,6 +867,9 @@ func runSeq(p Profile, seed uint64, cas int) *SeqRes {
 		if p.DeadProbe && rng.Intn(12) == 0 {
 			s.deadProbe()
 		}
+		if (p.DeadProbe || p.DeleteAll) && rng.Intn(40) == 0 {
+			s.dirMoveScript()
+		}
 		if p.FsckEvery > 0 && s.step%p.FsckEvery == 0 {
 			s.fsck("fsck", fmt.Sprintf("after op %d %s", s.step, op))
 		}
@@ -1094,6 +1097,53 @@ func (s *Sess) genChurn() *Op {
 	}
 	k := []OpKind{OpCreate, OpCreate, OpMkdir, OpSymlink}[r.Intn(4)]
 	return &Op{K: k, H: dfh, Name: s.name(), Target: "x"}
+}
+
+// dirMoveScript: a directory is moved to another parent (and sometimes back
+// and forth), emptied and removed, then both parents are removed; the handles
+// of all three directories must be stale afterwards in every procedure (a
+// link count that does not follow the move keeps an inode alive without a
+// name).
+func (s *Sess) dirMoveScript() {
+	root := s.srv.Root
+	mk := func(k OpKind, dir []byte, name string) []byte {
+		if dir == nil {
+			return nil
+		}
+		r := s.exec(&Op{K: k, H: dir, Name: name, Target: "t"})
+		if r.Stat != stOK {
+			return nil
+		}
+		return r.FH
+	}
+	pn, qn := fmt.Sprintf("mvp%d", s.step), fmt.Sprintf("mvq%d", s.step)
+	p := mk(OpMkdir, root, pn)
+	q := mk(OpMkdir, root, qn)
+	c := mk(OpMkdir, q, "c")
+	if p == nil || q == nil || c == nil || mk(OpCreate, c, "f") == nil {
+		return
+	}
+	if s.exec(&Op{K: OpRename, H: q, Name: "c", H2: p, Name2: "c"}).Stat != stOK {
+		return
+	}
+	s.exec(&Op{K: OpLookup, H: c, Name: ".."})
+	if s.rng.Intn(2) == 0 {
+		s.exec(&Op{K: OpRename, H: p, Name: "c", H2: q, Name2: "c2"})
+		s.exec(&Op{K: OpRename, H: q, Name: "c2", H2: p, Name2: "c"})
+	}
+	if s.rng.Intn(3) == 0 {
+		s.restart()
+	}
+	s.exec(&Op{K: OpRemove, H: c, Name: "f"})
+	s.exec(&Op{K: OpRmdir, H: p, Name: "c"})
+	s.exec(&Op{K: OpRmdir, H: root, Name: pn})
+	s.exec(&Op{K: OpRmdir, H: root, Name: qn})
+	for _, h := range [][]byte{p, q, c} {
+		for _, op := range []*Op{{K: OpGetattr, H: h}, {K: OpLookup, H: h, Name: "."}, {K: OpReaddirplus, H: h, Count: 4096, Dircount: 4096}, {K: OpCreate, H: h, Name: "zz"}, {K: OpRename, H: h, Name: "a", H2: root, Name2: "zz"}} {
+			s.exec(op)
+		}
+	}
+	s.res.Stats.Add("directory-move-script")
 }
 
 // deadProbe (C08) presents one dead handle to every procedure and handle
